@@ -230,7 +230,7 @@ class Effects:
         if isinstance(v, ast.Call):
             fn = v.func
             txt = ast.unparse(fn)
-            if isinstance(fn, ast.Attribute) and fn.attr == '_create_from_bitstype':
+            if isinstance(fn, ast.Attribute) and fn.attr in self.m.promoters:
                 return ('view', ast.unparse(v.args[0]) if v.args else '', fam)
             if txt.endswith('.__new__') or txt == 'object.__new__':
                 return ('alloc', fam, 'raw')
